@@ -31,6 +31,11 @@ type Op struct {
 	Iter  *IterOp  `json:"iter,omitempty"`
 	OptN  []Opt    `json:"optN,omitempty"`  // reopen options of the lock-step followers (C14)
 	Reuse bool     `json:"reuse,omitempty"` // backup: into the directory of an earlier backup, if every file in it will be overwritten
+	// PrefixDst (backup, once per history): the destination is a sibling whose path is a string prefix of the source
+	// path ("…/store-live" backed up into "…/store"); Twin: the put writes a key exactly as long as the key the harness
+	// writes into opened backups (so that source and copy grow by the same number of bytes)
+	PrefixDst bool `json:"prefixDst,omitempty"`
+	Twin      int  `json:"twin,omitempty"`
 }
 
 // RaceOp is a write executed from inside Merge's scan loop, at its At-th
@@ -200,6 +205,8 @@ type Runner struct {
 	BeforeStep    []func(r *Runner, op *Op)
 	OnClosed      func(r *Runner) *Fail // called between Close and Open of a reopen (C13)
 	OnKilled      func(r *Runner)       // called between the death of the process and the restart of a kill op (C13)
+	staleBatch    *kv.Batch             // a committed batch whose handle the "caller" kept
+	prefixDstUsed bool
 	OnMergeResult func(err error) *Fail // judge the return value of Merge (C06, C17)
 	LastMergeErr  error
 	kept          []*keptBackup
@@ -249,6 +256,7 @@ func (r *Runner) open(opt Opt) (fail *Fail) {
 		return failf("open-error", "Open(%s) failed: %v", opt, err)
 	}
 	r.DB = db
+	r.staleBatch = nil
 	r.Opt = opt
 	r.closed = false
 	r.lastFileNum = db.Stat().DataFileNum
@@ -952,6 +960,24 @@ func (r *Runner) execBatch(op *Op) (touched [][]byte, global bool, fail *Fail) {
 	before := r.ActiveOffset()
 	b := r.DB.NewBatch(kv.BatchOptions{Sync: op.Sync})
 	committed := false
+	if st := r.staleBatch; st != nil {
+		// a handle kept beyond its Commit (defer b.Commit() next to an explicit Commit, a field still pointing at it) and
+		// touched while a LATER batch is open: it must still reject every use and must not reach into the new batch
+		r.staleBatch = nil
+		err1 := st.Put([]byte("zz-stale"), []byte("1"))
+		_, err2 := st.Get([]byte("zz-stale"))
+		err3 := st.Commit()
+		r.F.PostCommit++
+		r.Stats.Label("committed-batch-touched-while-a-later-batch-is-open")
+		if !errors.Is(err1, kv.ErrBatchCommitted) || !errors.Is(err2, kv.ErrBatchCommitted) || !errors.Is(err3, kv.ErrBatchCommitted) {
+			func() {
+				defer func() { _ = recover() }()
+				_ = b.Commit()
+			}()
+			committed = true
+			return nil, true, failf("committed-batch-usable", "a batch committed earlier, touched while a later batch is open: Put = %v, Get = %v, Commit = %v, want ErrBatchCommitted each time", err1, err2, err3)
+		}
+	}
 	defer func() {
 		// never leave the database locked behind a failed case
 		if !committed {
@@ -1085,6 +1111,9 @@ func (r *Runner) execBatch(op *Op) (touched [][]byte, global bool, fail *Fail) {
 		r.F.Muts++
 		r.F.Batches++
 		r.F.dirtySince["batch"] = true
+	}
+	if len(op.Post) > 0 {
+		r.staleBatch = b // touched again when the next batch is open
 	}
 	// a committed batch rejects further use
 	for _, p := range op.Post {
@@ -1291,7 +1320,13 @@ func (r *Runner) execBackup(op *Op) *Fail {
 	}
 	r.F.Backups++
 	dst := filepath.Join(r.Base, fmt.Sprintf("backup-%d", r.F.Backups))
-	if op.Reuse && len(r.kept) > 0 {
+	if op.PrefixDst && !r.prefixDstUsed {
+		if rs := []rune(filepath.Base(r.Dir)); len(rs) > 1 {
+			r.prefixDstUsed = true
+			dst = filepath.Join(r.Base, string(rs[:len(rs)-1]))
+			r.Stats.Label("backup-destination-is-a-string-prefix-of-the-source-path")
+		}
+	} else if op.Reuse && len(r.kept) > 0 {
 		// "backups repeated during continued writing" into ONE directory: sound whenever every file the directory
 		// holds will be written again (its names are a subset of the source's names); a directory with files the
 		// source no longer has (after an adopted merge) is not reused - what happens to those files is not stated
